@@ -6,6 +6,7 @@ import rvgen
 import rvref
 
 PROP = "C01"
+CONSTS = ['ops', 'ctl', 'mem']          # constant tables of the models this property depends on
 RULE = ("single instructions on boundary x random operands for every supported mnemonic (rv1), and generated programs "
         "(hazard-complete alphabet over x0,x1,x2,x5,a0,a7 plus wide register use, loads/stores through a base register, "
         "forward/backward branches, JAL/JALR incl. wrap-around targets, every ecall code) run in single-cycle mode with a "
